@@ -27,3 +27,7 @@ def run(ctx):
     ctx.step(C03.r03_3, ctx)        # the cut-off table: "in-range keys" of a bounded search
     ctx.step(streams.seek_rules, ctx, R41, R42, None, None, want_c03=False, want_c04=True)
     ctx.step(streams.next_rules, ctx, R41, R42, R43, R44, R45, None, None, want_c03=False, want_c04=True)
+    # "any automaton that obeys the contract": one that does not override the optional hints gets the provided ones, which must be the
+    # trivially sound ones
+    import rules.C18 as C18
+    ctx.step(C18.trait_defaults, ctx, R43)
